@@ -245,6 +245,13 @@ class Contract:
         return {}
 
     def apply(self, ex, state, args, kw, line):
+        try:
+            return self._apply(ex, state, args, kw, line)
+        except (AttributeError, TypeError, KeyError, IndexError) as e:
+            # e.g. a scalar where the contract speaks about a tensor train: the call is outside what the contract describes
+            raise Unsupported('arguments of %s at line %d are of a kind its contract does not describe (%s: %s)' % (self.name, line, type(e).__name__, e))
+
+    def _apply(self, ex, state, args, kw, line):
         A = self.bind(args, kw)
         inst = self.call_inst(A)
         S = SpecView(A, {k: snapshot(v) for k, v in A.items()}, state.mark, inst, state)
